@@ -1,10 +1,11 @@
 /-
-Line-protocol driver for the C05 model (Model/Failure.lean + Gen/Health.lean).
+Line-protocol driver for the C05 model (Model/Failure.lean + Gen/Health.lean + Gen/ShmEntry.lean).
 One JSON object per line in, one per line out; stateless (every op carries its state).
 -/
 import EkwVerif.Drive.Util
 import EkwVerif.Model.Failure
 import EkwVerif.Gen.Health
+import EkwVerif.Gen.ShmEntry
 open Lean EkwVerif.Drive EkwVerif.Failure
 
 def optInt (j : Json) (k : String) : Option Int :=
@@ -31,13 +32,15 @@ def stOf (j : Json) : ExecSt :=
   { host := getStr j "host",
     workers := (getArr j "workers").map (fun p => match asArr p with | [a, b] => (asStr a, handleOf b) | _ => ("", .notStarted)),
     shm := optInt j "shm", data := optInt j "data", terminating := getBool j "terminating",
-    segments := (getArr j "segments").map asStr }
+    segments := (getArr j "segments").map asStr,
+    shmMode := match getStr j "shm_mode" with | "mute" => .mute | "lingers" => .lingers | _ => .ok }
 
 def stJ (s : ExecSt) : Json :=
   Json.mkObj [("host", Json.str s.host),
     ("workers", Json.arr (s.workers.map (fun p => Json.arr #[Json.str p.1, handleJ p.2])).toArray),
     ("shm", optIntJ s.shm), ("data", optIntJ s.data), ("terminating", Json.bool s.terminating),
-    ("segments", strs s.segments)]
+    ("segments", strs s.segments),
+    ("shm_mode", Json.str (match s.shmMode with | .ok => "ok" | .mute => "mute" | .lingers => "lingers"))]
 
 def emsgOf (j : Json) : EMsg :=
   match asArr j with
@@ -86,6 +89,7 @@ def actJ : TermAct → Json
   | .workerKill w => Json.arr #[Json.str "kill", Json.str w]
   | .shmShutdown => Json.arr #[Json.str "shm-shutdown"]
   | .shmJoin => Json.arr #[Json.str "shm-join"]
+  | .shmKill => Json.arr #[Json.str "shm-kill"]
   | .dataKill => Json.arr #[Json.str "data-kill"]
 
 def eoutJ : EOut → Json
@@ -108,6 +112,20 @@ def errS : HealthErr → String
 def statusS : CtrlStatus → String
   | .running => "running" | .endedOk => "ok" | .endedErr => "error" | .starved => "starved"
 
+def exitS : StartExit → String | .returned => "returned" | .raised => "raised"
+
+/-- the end of the shm server process holding `segs`: segments left in /dev/shm, exit code (null: still serving) -/
+def shmEnd (e : ShmEntry) (segs : List String) (how : String) : List String × Option Int :=
+  let st : ExecSt := { host := "h", workers := [], shm := none, data := none, terminating := false, segments := segs }
+  let dies (d : ShmDeath) : List String × Option Int := let r := shmDies e st d; (r.segments, r.shm)
+  match how with
+  | "shutdown" => shmShutdown e segs
+  | "sigterm" => dies .sigterm
+  | "sigint" => dies .sigint
+  | "sigkill" => dies .sigkill
+  | "loop-exception" => dies .loopException
+  | _ => (segs, none)
+
 def batchesOf (j : Json) (k : String) : List (List CMsg) := (getArr j k).map (fun b => (asArr b).map cmsgOf)
 
 def c05Step (_ : Unit) (j : Json) : Unit × Json :=
@@ -117,6 +135,15 @@ def c05Step (_ : Unit) (j : Json) : Unit × Json :=
     | "table" =>
       Json.mkObj [("rows", Json.arr (t.rows.map (fun r => Json.arr #[Json.str (classS r.child), Json.str (predS r.pred), Json.bool r.raises])).toArray),
                   ("none_raises", Json.bool t.workerNoneRaises), ("all_raise", Json.bool EkwVerif.Gen.health_all_raise)]
+    | "entry-table" =>
+      let e := EkwVerif.Gen.shmEntry
+      Json.mkObj [("rows", Json.arr (e.rows.map (fun r => Json.arr #[Json.str (exitS r.exit), Json.bool r.goesOn, Json.bool r.atexit])).toArray),
+                  ("shutdown_breaks", Json.bool e.shutdownBreaks), ("sigterm_handler", Json.bool e.sigtermHandler),
+                  ("sigint_handler", Json.bool e.sigintHandler), ("atexit_unlinks", Json.bool e.atexitUnlinks),
+                  ("clean", Json.bool EkwVerif.Gen.shm_entry_clean)]
+    | "shmend" =>
+      let r := shmEnd EkwVerif.Gen.shmEntry ((getArr j "segs").map asStr) (getStr j "how")
+      Json.mkObj [("left", strs r.1), ("code", optIntJ r.2)]
     | "health" =>
       let r := healthcheck t (stOf j)
       Json.mkObj [("raises", Json.bool r.isSome), ("err", match r with | some e => Json.str (errS e) | none => Json.null)]
@@ -128,7 +155,7 @@ def c05Step (_ : Unit) (j : Json) : Unit × Json :=
       let r2 := terminate r.2
       Json.mkObj [("acts", Json.arr (r.1.map actJ).toArray), ("acts2", Json.arr (r2.1.map actJ).toArray), ("st", stJ r.2)]
     | "tick" =>
-      let r := tick t (stOf j) ((getArr j "inbox").map emsgOf)
+      let r := tickEnv t (stOf j) ((getArr j "inbox").map emsgOf) (getBool j "hb") (getBool j "retry")
       Json.mkObj [("out", Json.arr (r.2.map eoutJ).toArray), ("st", stJ r.1)]
     | "recv" =>
       match recvEvents ((getArr j "hosts").map asStr) (batchesOf j "batches") with
